@@ -63,6 +63,22 @@ def gen_scenario(rng, kind="mixed"):
     return {"threads": threads, "fire": fire, "ntills": tills, "kind": kind}
 
 
+def gen_hostile(rng):
+    """C05 outside the model (monitors only): a thread that stays inside the block for more than a minute of virtual time
+    (a Lock that gives up waiting for its mutex lets a second thread in), and wait() called with something that is not a
+    signal (it raises: the caller is still inside its block and must still hold the mutex)"""
+    threads = []
+    if rng.random() < 0.6:
+        threads.append([{"pre": None, "loop": None, "till": None, "bare": 0, "post": (0, 1), "raises": False,
+                         "hold": rng.choice([61.0, 75.0, 130.0, 3700.0])}])
+    if rng.random() < 0.6 or not threads:
+        threads.append([{"pre": None, "loop": None, "till": None, "bare": 0, "post": (0, 1), "raises": False, "badtill": rng.choice([0.5, 3, "soon"])}])
+    for _ in range(rng.randint(1, 3)):
+        threads.append([{"pre": (0, 1), "loop": None, "till": None, "bare": 0, "post": None, "raises": rng.random() < 0.2}])
+    rng.shuffle(threads)
+    return {"threads": threads, "fire": [], "ntills": 0, "kind": "hostile"}
+
+
 def shape(sc):
     def b(blk):
         s = ""
@@ -76,6 +92,10 @@ def shape(sc):
             s += "p"
         if blk["raises"]:
             s += "!"
+        if blk.get("hold"):
+            s += "H"
+        if blk.get("badtill") is not None:
+            s += "B"
         return s or "-"
     return "%s:" % sc.get("kind", "") + "/".join(",".join(b(x) for x in t) for t in sc["threads"]) + ":f%d" % len(sc["fire"])
 
@@ -197,6 +217,22 @@ def run_scenario(sc, chooser=None, seed=0, max_steps=3000, rewait_limit=12):
                         with Noted(ti):
                             if blk["pre"]:
                                 setv(ti, blk["pre"])
+                            if blk.get("hold"):
+                                sched.vsleep(blk["hold"])          # stays inside the block, holding the lock
+                                if lk.lock is None or lk.lock.owner is not sched.me() or not lk.lock.held:
+                                    st["viol"].append("C05: thread %d is inside its block but no longer owns the mutex" % ti)
+                            if blk.get("badtill") is not None:
+                                try:
+                                    lk.wait(till=blk["badtill"])
+                                    st["viol"].append("unexpected: wait(till=%r) did not raise" % (blk["badtill"],))
+                                except Boom:
+                                    raise
+                                except BaseException as cause:
+                                    if isinstance(cause, ds.SchedAbort):
+                                        raise
+                                if lk.lock is None or lk.lock.owner is not sched.me() or not lk.lock.held:
+                                    st["viol"].append("C05: wait() raised on thread %d and left it inside its block without the "
+                                                      "mutex" % ti)
                             if blk["loop"]:
                                 i, v = blk["loop"]
                                 again = blk.get("persist", 0)     # a loop that keeps its deadline: re-waits after a timeout
